@@ -417,7 +417,11 @@ def run_check(pid, tier, seed):
                     nontriv.add(req)
                 bad = None
                 if su.oracle:
-                    v = su.oracle(req, io)
+                    try:
+                        v = su.oracle(req, io)
+                    except Exception as ex:
+                        # an answer the oracle cannot even read is not what the property allows
+                        v = "the implementation's answer has no admissible shape (%s: %s): %s" % (type(ex).__name__, ex, clip(io))
                     if v:
                         bad = ("oracle", v)
                 if su.project:
